@@ -456,6 +456,11 @@ func (s *MergeExp) BindingPath(bindPath string,
 			arr.Value[i] = iv
 		}
 		return &arr, s.wrapError(errs.If())
+	case ModeNullMapCall:
+		// Mapping over null gives null, just as at runtime.
+		return &NullExp{
+			valExp: valExp{Node: *v.getNode()},
+		}, s.wrapError(err)
 	default:
 		panic("invalid merge kind " + src.CallMode().String())
 	}
